@@ -20,7 +20,7 @@ func Run(ctx *core.Ctx) {
 	ReplayFamilies(ctx)
 	PositionFamily(ctx)
 	LiteralFamily(ctx)
-	RandomTraces(ctx, ctx.Pick(4000, 60000))
+	RandomTraces(ctx, ctx.Pick(4000, 150000))
 }
 
 // Classify gives the structural feature used to match known findings.
